@@ -302,6 +302,12 @@ func bestPracticesCheck(token jwt.Token) error {
 		return errors.New("token nbf occurs before iat")
 	}
 
+	// Ensure the token really expires: jwt.Validate() skips the exp check when exp is the Unix epoch ("exp": 0),
+	// which would make such a token valid forever.
+	if token.Expiration().Unix() <= 0 {
+		return errors.New("token exp must be after the unix epoch")
+	}
+
 	// Ensure the subject field is non-empty
 	if token.Subject() == "" {
 		return errors.New("sub must not be empty")
